@@ -497,12 +497,17 @@ fn run_in_child(out: &str, reqs: &[String]) -> Vec<(String, Option<String>)> {
             .stderr(std::process::Stdio::null())
             .spawn()
             .unwrap();
-        {
-            let mut si = ch.stdin.take().unwrap();
-            for r in todo {
-                let _ = writeln!(si, "{r}");
+        // feed stdin from a separate thread: with thousands of requests both pipes fill up
+        // and a single-threaded write-then-read would deadlock
+        let mut si = ch.stdin.take().unwrap();
+        let lines: Vec<String> = todo.to_vec();
+        let feeder = std::thread::spawn(move || {
+            for r in lines {
+                if writeln!(si, "{r}").is_err() {
+                    break;
+                }
             }
-        }
+        });
         let so = std::io::BufReader::new(ch.stdout.take().unwrap());
         let mut got = 0;
         for line in so.lines() {
@@ -512,6 +517,7 @@ fn run_in_child(out: &str, reqs: &[String]) -> Vec<(String, Option<String>)> {
             got += 1;
         }
         let st = ch.wait().unwrap();
+        let _ = feeder.join();
         if got < todo.len() {
             // the child died while executing request number `got`
             results.push((
